@@ -14,7 +14,7 @@ from kq.effects import Effects, _field_elems
 from kq.report import RuleResult
 
 K = "kanata_state_machine::kanata::Kanata::"
-REMOVERS = ("pop", "pop_back", "pop_front", "remove", "retain", "drain", "swap_remove", "truncate")
+REMOVERS = ("pop", "pop_back", "pop_front", "remove", "retain", "drain", "swap_remove", "truncate", "clear")
 
 # (ADT suffix, field) -> reason. An exemption suppresses one field; it is never a property-level finding.
 EXEMPT = {
@@ -53,6 +53,9 @@ EXEMPT = {
         "consulted only while a one-shot is active, and an active one-shot (keys non-empty, timeout > 0) makes the predicate false "
         "(triaged: no output difference could be produced)",
     ("kanata_state_machine::kanata::sequences::SequenceState", "ticks_until_timeout"): "counts only while activity != Inactive, which the predicate reads through is_inactive()",
+    ("kanata_state_machine::kanata::sequences::SequenceState", "overlapped_sequence"): "cleared on key-state changes while a sequence is active (event-driven); activity is read by the predicate through is_inactive()",
+    ("kanata_state_machine::kanata::sequences::SequenceState", "raw_oscs"): "cleared when a sequence is activated (a key press); activity is read by the predicate through is_inactive()",
+    ("kanata_state_machine::oskbd::linux::KbdOut", "raw_buf"): "output write buffer: filled and flushed inside one write call, carries nothing from tick to tick",
     ("kanata_state_machine::kanata::sequences::SequenceState", "sequence"): "changes on key presses in sequence mode only; activity is read by the predicate",
     ("kanata_state_machine::kanata::output_logic::zippychord::ZchDynamicState", "zchd_ticks_until_enabled"): "counts only in state WaitEnable; zchd_enabled_state is read by zchd_is_idle",
     ("kanata_state_machine::kanata::output_logic::zippychord::ZchDynamicState", "zchd_ticks_until_disable"): "non-zero only while input keys are held; zchd_input_keys is read by zchd_is_idle",
@@ -222,6 +225,27 @@ def run_keytiming(prog):
     oks = [bi for bi, si, st in f.all_rvalues()
            if st["p"]["l"] == 0 and not proj(st["p"]) and st["rv"]["k"] == "agg" and st["rv"].get("adt") == "core::result::Result" and st["rv"].get("v") == "Ok"]
     res.inst("anchors", emits=len(emits), sets=len(sets), ok_returns=len(oks))
+    # the bound is accumulated over all key-timing conditions of a configuration: every store must be
+    # max(previous value, new threshold), never a plain overwrite
+    from kq.core import Resolver
+    for b in sets:
+        t = f.term(b)
+        r = Resolver(f).root(t["args"][1]) if len(t["args"]) > 1 else ("unknown", None, [])
+        mono = False
+        if r[0] == "call" and (callee_name(r[1][1]) or "") in ("core::cmp::max", "core::cmp::Ord::max"):
+            for a in r[1][1]["args"]:
+                ra = Resolver(f).root(a)
+                if ra[0] == "call" and callee_name(ra[1][1]) == "core::cell::Cell::get":
+                    fl = receiver_fields(f, ra[1][1])
+                    if fl and fl[-1] == "switch_max_key_timing":
+                        mono = True
+        res.inst("store-is-monotone@%s" % t.get("ln"), ok=mono)
+        res.oblige(mono)
+        if not mono:
+            res.viol("store-is-monotone", "%s:%s" % (f.file, t.get("ln")),
+                     "switch_max_key_timing is overwritten instead of raised (max of the previous value and the new threshold): a "
+                     "later, smaller key-timing threshold lowers the bound and the loop may block before an earlier condition's "
+                     "threshold is reached")
     if not emits:
         res.viol("anchors", f.loc, "parser no longer emits ticks-since opcodes")
         return res
